@@ -4,6 +4,8 @@ import (
 	"fmt"
 	"strings"
 
+	"github.com/trustbloc/sidetree-core-go/pkg/processor"
+
 	"verifharness/hx"
 	"verifharness/ref"
 )
@@ -149,6 +151,51 @@ func checkC01(c *hx.Ctx) {
 		if merr == nil && len(st.Applied) != len(L) {
 			c.Count("legit_chain_not_fully_applied")
 		}
+		// ---- one long-lived processor instance, two histories of the same DID (a store rebuilt after a re-sync): in the second
+		// one a stranger's self-consistent operation sits at the coordinates where the first one had the owner's operation,
+		// and the owner's operation is anchored right after it. Nothing remembered from the first resolution may count.
+		if i%3 == 0 && len(L) >= 2 {
+			k := 1 + r.Intn(len(L)-1)
+			x, y := ch.newKey("S"), ch.newKey("S")
+			var stranger *ref.Op
+			switch L[k].Type {
+			case "update":
+				stranger = ch.U.MkSigned("S:upd-by-stranger-at-the-owner's-coordinates", "update", x, "", y.Commitment(code), []interface{}{patchAddServices(svcEntry("taken", "over", "https://stranger.example"))}, SignedOpts{})
+			case "recover":
+				stranger = ch.U.MkSigned("S:rec-by-stranger-at-the-owner's-coordinates", "recover", x, y.Commitment(code), x.Commitment(code), []interface{}{patchAddServices(svcEntry("taken", "over", "https://stranger.example"))}, SignedOpts{})
+			default:
+				stranger = ch.U.MkSigned("S:deact-by-stranger-at-the-owner's-coordinates", "deactivate", x, "", "", nil, SignedOpts{})
+			}
+			var B, Bclean []*ref.Op
+			for j, o := range L {
+				if j == k {
+					moved := Place(ch.Legit[k], o.Time+1, o.Number, o.Ref+"m", p.GenesisTime)
+					B = append(B, Place(stranger, o.Time, o.Number, o.Ref+"s", p.GenesisTime), moved)
+					Bclean = append(Bclean, moved)
+					continue
+				}
+				B = append(B, o)
+				Bclean = append(Bclean, o)
+			}
+			store := hx.NewOpStore()
+			proc := processor.New("verif", store, pc)
+			store.Set(ch.U.Suffix, ToAnchored(ch.U.Suffix, L))
+			c.Eval()
+			rm1, err1 := proc.Resolve(ch.U.Suffix)
+			store.Set(ch.U.Suffix, ToAnchored(ch.U.Suffix, B))
+			rm2, err2 := proc.Resolve(ch.U.Suffix)
+			rmC, errC := SUTResolve(pc, ch.U.Suffix, Bclean, nil)
+			if k1 := rmKey(rm1, err1); k1 != kL {
+				c.Violation("C01 a long-lived processor resolves the legitimate chain differently from a fresh one", replay)
+				return
+			}
+			if k2, kC := rmKey(rm2, err2), rmKey(rmC, errC); k2 != kC {
+				replay["second_history"], replay["with_stranger"], replay["without_stranger"] = replayOps(B), k2, kC
+				c.Violation(fmt.Sprintf("C01 a long-lived processor that had resolved the owner's history applied a stranger's operation anchored at the coordinates of the owner's operation in a rebuilt store: %s\n   with the stranger's operation:    %s\n   without it (fresh processor):     %s", histString(B), k2, kC), replay)
+				return
+			}
+			c.Count("rebuilt_store_histories_through_one_processor")
+		}
 		sig := make([]string, 0, len(F))
 		for _, f := range F {
 			kind := f.Label[strings.Index(f.Label, ":")+1:]
@@ -236,6 +283,7 @@ func checkC01(c *hx.Ctx) {
 		}
 	})
 	c.Floor("exhaustive_placements", 5000)
+	c.Floor("rebuilt_store_histories_through_one_processor", 100)
 	c.Floor("histories_crossing_the_genesis_of_a_stricter_version", 100)
 	c.Floor("forged:e-create-other-delta", 1)
 	c.Floor("forged:d-deact-reveal-mismatch", 1)
